@@ -321,6 +321,48 @@ def rule_state(ctx):
     for rel, cn in ((SEND, "AxolotlSendLayer"), (RECV, "AxolotlReceivelayer")):
         n += per_instance_state(ctx, "C03.state", ctx.repo.cls(rel, cn))
     ctx.units["C03.state_attrs"] = n
+    # the manager's cipher getters keep ciphers between calls: what they hand out must be the cipher OF the party asked
+    # for - executed for two parties in a row on one manager, each result must be built from its own arguments
+    repo = ctx.repo
+    mgr = repo.cls(MGR, "AxolotlManager")
+    for gname, calls in (("_get_group_cipher", [[("c", "g1"), ("c", "alice")], [("c", "g1"), ("c", "bob")], [("c", "g2"), ("c", "bob")], [("c", "g1"), ("c", "alice")]]),
+                         ("_get_session_cipher", [[("c", "alice")], [("c", "bob")], [("c", "alice")]])):
+        fn = mgr.methods.get(gname)
+        if fn is None:
+            continue
+        w = where(MGR, "AxolotlManager." + gname, fn.lineno)
+        it = Interp(repo, {}, {}, hooks={})
+        o = Obj(mgr)
+        o.fields.update({"_store": ("ext", "store", []), "_username": ("c", "me")})
+        # the caches are created by the constructor: take their initial values from it (names are not assumed)
+        init = mgr.methods.get("__init__")
+        for n_ in ast.walk(init) if init else []:
+            if isinstance(n_, ast.Assign) and is_self_attr(n_.targets[0]) and isinstance(n_.value, ast.Dict) and not n_.value.keys:
+                o.fields[n_.targets[0].attr] = ("dict", {})
+        bad, problem = [], None
+        results = []
+        for args in calls:
+            try:
+                v = it.method_call(("obj", o), gname, list(args), {}, {"@module": mgr.module, "@owner": mgr}, 0, None)
+            except _Raise as r:
+                problem = "raises " + r.text[:50]
+                break
+            except Exception as x:
+                problem = "%s: %s" % (type(x).__name__, x)
+                break
+            results.append(v)
+            missing = [a[1] for a in args if ("const", repr(a[1])) not in deps_of(v)]
+            if missing:
+                bad.append("%s(%s) hands out %s, which is not built from %s" % (gname, ", ".join(repr(a[1]) for a in args), show(v)[:40], missing))
+        if problem:
+            ctx.undecided("C03.state", w, fn, "%s could not be followed: %s" % (gname, problem))
+            continue
+        ctx.check("C03.state", not bad, w, "%s hands out the cipher of the party asked for" % gname,
+                  "a cipher kept from an earlier call is handed out for another party (%s): messages of one member are decrypted - or one's own are signed - with another member's key state" % "; ".join(bad[:2]),
+                  "every result is built from its own arguments (%d calls in a row)" % len(calls))
+
+
+MANAGER_DECRYPT = ("decrypt_pkmsg", "decrypt_msg", "group_decrypt")
 
 
 def exc_raiser(repo, name):
@@ -340,9 +382,11 @@ def rule_failures(ctx):
     w = where(RECV, "AxolotlReceivelayer.handleEncMessage", None)
 
     def run_case(exc_name, times=1, then_success=False):
-        hooks = {}
-        for h in ("handlePreKeyWhisperMessage", "handleWhisperMessage", "handleSenderKeyMessage"):
-            hooks["method:" + h] = exc_raiser(repo, exc_name) if exc_name else (lambda itp, recv, a, k, env, d, e: C_NONE)
+        # failures are injected where the layer meets the manager (decrypt_pkmsg / decrypt_msg / group_decrypt), not at the
+        # layer's own handler methods: however the layer is organised inside, this is what fails
+        hooks = {"method:parseAndHandleMessageProto": lambda itp, recv, a, k, env, d, e: C_NONE}
+        for h in MANAGER_DECRYPT:
+            hooks["ext:manager." + h] = exc_raiser(repo, exc_name) if exc_name else (lambda itp, recv, a, k, env, d, e: ("ext", "plaintext", []))
         regs = []
 
         def keys_hook(itp, recv, args, kwargs, env, depth, e):
@@ -369,8 +413,8 @@ def rule_failures(ctx):
             except _Raise as r:
                 out.append((list(flat_effects(it.effects)), r.text))
         if then_success:
-            for h in ("handlePreKeyWhisperMessage", "handleWhisperMessage", "handleSenderKeyMessage"):
-                it.hooks["method:" + h] = lambda itp, recv, a, k, env, d, e: C_NONE
+            for h in MANAGER_DECRYPT:
+                it.hooks["ext:manager." + h] = lambda itp, recv, a, k, env, d, e: ("ext", "plaintext", [])
             it.effects[:] = []
             it.method_call(layer, "handleEncMessage", [node], {}, {"@module": cls.module, "@owner": cls}, 0, None)
         return out, layer, regs, node, it, cls
@@ -437,7 +481,7 @@ def rule_failures(ctx):
 def rule_once(ctx):
     repo = ctx.repo
     for h, enc_type, dec in (("handlePreKeyWhisperMessage", "pkmsg", "decrypt_pkmsg"), ("handleWhisperMessage", "msg", "decrypt_msg"), ("handleSenderKeyMessage", "skmsg", "group_decrypt")):
-        w = where(RECV, "AxolotlReceivelayer." + h, None)
+        w = where(RECV, "AxolotlReceivelayer.handleEncMessage", None)
 
         def run(cell, domains, h=h, enc_type=enc_type):
             hooks = {"method:parseAndHandleMessageProto": lambda itp, recv, a, k, env, d, e: C_NONE}
@@ -453,7 +497,7 @@ def rule_once(ctx):
             node[1].attrs.update({"id": A((), "id"), "from": A((), "from"), "participant": A((), "participant"), "type": ("c", "text"), "t": ("c", "1")})
             res = {"raised": None}
             try:
-                it.method_call(layer, h, [node], {}, {"@module": cls.module, "@owner": cls}, 0, None)
+                it.method_call(layer, "handleEncMessage", [node], {}, {"@module": cls.module, "@owner": cls}, 0, None)
             except _Raise as r:
                 res["raised"] = r.text
             res["effects"] = list(flat_effects(it.effects))
@@ -498,12 +542,33 @@ def rule_once(ctx):
                     bad.append("the message is decrypted with the session (and checked against the pinned identity) of `%s` although %s" % ("/".join(sorted(who)), "the stanza names a participant as its author" if part is not None else "it is a direct message"))
             if [c for kk, c in n.children if isinstance(c, Node) and tagname(c) == "proto"].__len__() != 1:
                 bad.append("more than one proto child")
-        ctx.check("C03.once", not bad, w, "%s delivers once" % h, "; ".join(sorted(set(bad))[:3]), "one delivery of a stanza whose proto child is the decrypted payload")
+        ctx.check("C03.once", not bad, w, "a %s envelope is delivered once" % enc_type, "; ".join(sorted(set(bad))[:3]), "one delivery of a stanza whose proto child is the decrypted payload")
     # handleEncMessage: the pairwise handlers are alternatives; a group key message is handled in addition
+    # a stanza that carries a pkmsg AND a msg envelope (and a group envelope): exactly one pairwise decryption, the group
+    # envelope in addition
     fn = repo.method(RECV, "AxolotlReceivelayer", "handleEncMessage")
-    src = unparse(fn)
-    ok = "if encMessageProtocolEntity.getEnc(EncProtocolEntity.TYPE_PKMSG):" in src and "elif encMessageProtocolEntity.getEnc(EncProtocolEntity.TYPE_MSG):" in src
-    ctx.check("C03.once", ok, where(RECV, "AxolotlReceivelayer.handleEncMessage", fn.lineno), "pkmsg / msg are alternatives", "a pairwise envelope must be handled by exactly one of the two pairwise handlers", "pkmsg elif msg")
+    calls = []
+    hooks = {"method:parseAndHandleMessageProto": lambda itp, recv, a, k, env, d, e: C_NONE}
+    for hname in MANAGER_DECRYPT:
+        hooks["ext:manager." + hname] = (lambda nm: (lambda itp, recv, a, k, env, d, e: (calls.append(nm), ("ext", "plaintext", []))[1]))(hname)
+    it, layer, cls = mk_layer(repo, RECV, "AxolotlReceivelayer", {("A", (), "participant"): OTHER, ("A", (), "from"): OTHER, ("A", (), "id"): OTHER}, {}, hooks)
+    it.pure_depth = 0
+    node = symbolic_node("message")
+    node[1].path = None
+    for t in ("pkmsg", "msg", "skmsg"):
+        encn = Node(("c", "enc"), None)
+        encn.attrs.update({"type": ("c", t), "v": ("c", "2")})
+        encn.data = ("ext", "ciphertext-" + t, [])
+        node[1].children.append(("one", encn))
+    node[1].attrs.update({"id": MID, "from": MFROM, "participant": MPART, "type": ("c", "text"), "t": ("c", "1")})
+    raised = None
+    try:
+        it.method_call(layer, "handleEncMessage", [node], {}, {"@module": cls.module, "@owner": cls}, 0, None)
+    except _Raise as r:
+        raised = r.text
+    pair = [c for c in calls if c != "group_decrypt"]
+    ctx.check("C03.once", len(pair) == 1 and calls.count("group_decrypt") == 1 and not raised, where(RECV, "AxolotlReceivelayer.handleEncMessage", fn.lineno), "pkmsg / msg are alternatives",
+              "a pairwise envelope must be handled by exactly one of the two pairwise handlers (and a group envelope in addition): decryptions %s%s" % (calls, " raising " + raised if raised else ""), "one pairwise decryption, plus the group envelope")
 
 
 def rule_skdm(ctx):
@@ -598,7 +663,8 @@ def rule_map(ctx):
         nparams = len(fn.args.args) - 1
         base_args = [("c", "peer"), ("c", "peer2"), ("ext", "DATA", [])][:nparams] if name == "group_decrypt" else [("c", "peer"), ("ext", "DATA", [])]
         bad = []
-        names = [n for n in dict.fromkeys(caught_names(fn)) if n.endswith("Exception") and n not in ("Exception", "BaseException")]
+        # the failures the property names: unknown session, unknown prekey (pairwise only), undecryptable, duplicate
+        names = ["NoSessionException", "InvalidMessageException", "DuplicateMessageException"] + (["InvalidKeyIdException"] if name != "group_decrypt" else [])
         for exc in names:
             args = list(base_args) + ([("c", True)] if name != "group_decrypt" else [])
             out, v, log = _mgr_run(repo, cls, name, args, {"raise": exc})
